@@ -4,6 +4,7 @@ import (
 	"fmt"
 	"go/types"
 	"math/big"
+	"sort"
 	"strings"
 
 	"golang.org/x/tools/go/ssa"
@@ -573,6 +574,31 @@ func (e *CEnv) evalCall(n *CCall) (CV, error) {
 			}
 		}
 		return CV{}, cerr("has() on non-map")
+	case "rangeof": // rangeof(i): the map ranged over by the i-th `for ... range <map>` of the function (source order); loop invariants only
+		if len(n.Args) != 1 || e.frame == nil {
+			return CV{}, cerr("rangeof(i) is only available in loop invariants")
+		}
+		lit, ok := n.Args[0].(*CInt)
+		if !ok {
+			return CV{}, cerr("rangeof needs an integer literal")
+		}
+		var rs []*ssa.Range
+		for _, b := range e.frame.fn.Blocks {
+			for _, in := range b.Instrs {
+				if r, ok := in.(*ssa.Range); ok {
+					if _, isMap := r.X.Type().Underlying().(*types.Map); isMap {
+						rs = append(rs, r)
+					}
+				}
+			}
+		}
+		sort.Slice(rs, func(i, j int) bool { return rs[i].Pos() < rs[j].Pos() })
+		idx := 0
+		fmt.Sscanf(lit.Val, "%d", &idx)
+		if idx < 0 || idx >= len(rs) {
+			return CV{}, cerr("rangeof(%d): the function has %d map range loops", idx, len(rs))
+		}
+		return CV{T: e.ex.operand(e.st, e.frame, rs[idx].X), GoT: rs[idx].X.Type()}, nil
 	case "visited": // visited(m, k): key k has been yielded by the range loop over map m that is in progress
 		args, err := evalArgs()
 		if err != nil {
